@@ -108,6 +108,9 @@ let parse_op (toks : string list) : op =
   | ["stradd"; i; s] -> OpStrAdd (n i, h s)
   | ["strget"; i; idx] -> OpStrGet (n i, n idx)
   | ["straddself"; i; idx] -> OpStrAddSelf (n i, n idx)
+  | ["strnew"; k; sec] -> OpStrNew (n k, n sec)
+  | ["strgetk"; k; idx] -> OpStrGetK (n k, n idx)
+  | ["straddk"; k; s] -> OpStrAddK (n k, h s)
   | ["dappself"; i; off; len] -> OpDAppSelf (n i, n off, n len)
   | ["noteaddself"; k; t; nm; idx] -> OpNoteAddSelf (n k, n t, h nm, n idx)
   | ["symadd"; a; b; c; d; e; f; g] -> OpSymAdd (n a, n b, n c, n d, n e, n f, n g)
